@@ -27,6 +27,18 @@ from quara.protocol.qtomography.standard.loss_minimization_estimator import (
 )
 
 
+def _takes_stream(generation_setting) -> bool:
+    _f = generation_setting.generate
+    return "seed_or_generator" in _f.__code__.co_varnames[: _f.__code__.co_argcount]
+
+
+def _generate_with_stream(generation_setting, stream_qoperation):
+    # the sample's random stream goes to exactly those settings whose generate() takes it
+    if _takes_stream(generation_setting):
+        return generation_setting.generate(seed_or_generator=stream_qoperation)
+    return generation_setting.generate()
+
+
 def execute_simulation_case_unit(
     test_setting,
     true_object,
@@ -128,8 +140,8 @@ def execute_simulation_sample_unit(
     is_detailed_results_required: bool = False,
 ) -> List[SimulationResult]:
     # Generate sample
-    _f = generation_settings.true_setting.generate
-    if "seed_or_generator" in _f.__code__.co_varnames[: _f.__code__.co_argcount]:
+    _settings = [generation_settings.true_setting, *generation_settings.tester_settings]
+    if all(_takes_stream(_setting) for _setting in _settings):
         true_object = generation_settings.true_setting.generate(
             seed_or_generator=stream_qoperation
         )
@@ -149,7 +161,9 @@ def execute_simulation_sample_unit(
                 c_sys=test_setting.c_sys,
             )
         else:
-            true_object = generation_settings.true_setting.generate()
+            true_object = _generate_with_stream(
+                generation_settings.true_setting, stream_qoperation
+            )
 
         # Tester Objects
         tester_objects = []
@@ -167,7 +181,9 @@ def execute_simulation_sample_unit(
                 )
             else:
                 generation_setting = generation_settings.tester_settings[i]
-                tester_objects.append(generation_setting.generate())
+                tester_objects.append(
+                    _generate_with_stream(generation_setting, stream_qoperation)
+                )
 
     true_object = true_object[0] if type(true_object) == tuple else true_object
     tester_objects = [
